@@ -1,0 +1,19 @@
+//go:build !verif
+
+// Package verifhook marks the filesystem steps of plugin installation for the crash-safety check in /verif.
+// Without the build tag `verif` every function is empty.
+package verifhook
+
+import (
+	"io"
+	"os"
+)
+
+func RemoveAll(name, path string)                   {}
+func MkdirAll(name, path string)                    {}
+func Create(name, path string)                      {}
+func Copy(name string, dst *os.File, src io.Reader) {}
+func Unarchive(name, archive, destination string)   {}
+func Remove(name, path string)                      {}
+func Rename(name, oldPath, newPath string)          {}
+func WriteFile(name, path string, data []byte)      {}
